@@ -134,3 +134,19 @@ PROPS["C07"] = Prop(
     trusted_base=VERUS_TRUST,
     not_covered=["termination", "callees honouring their side of the contract (they are other units / other properties)"],
 )
+
+
+V_RANGE = VUnit("range_assign", "range_assign", ["bind::bind_range_index"])
+
+PROPS["C11"] = Prop(
+    "C11", "proof",
+    "Unit V-range: bind::bind_range_index copied verbatim from /repo and verified by Verus for lists and right-hand sides of "
+    "every length and every value/error of the bound expressions (postcondition over the whole list view: accepted exactly on "
+    "0 <= a < b <= len with len(ys) == b-a, omitted bounds 0 / len(xs); element-wise write; frame; unchanged on error; no overflow/OOB). "
+    "Range reads and concatenation: Kani leaf contracts (bounded in sequence length, listed as bounded).",
+    vunits=[V_RANGE],
+    assumptions=["A-lock: the list cell is modelled as exclusively owned (no aliasing between the list, the right-hand side and the bound expressions' effects)",
+                 "single-index read/write (eval_expr Index arm, bind_next Index arm) are not under contract"],
+    trusted_base=VERUS_TRUST + COMMON_TRUST,
+    not_covered=["xs[i] read / xs[i] = v (inside eval_expr / bind_next)", "aliasing between xs and ys"],
+)
